@@ -743,7 +743,9 @@ func (d *badgerNodeDB) NewBatch(oldRoot node.Root, version uint64, chunk bool) (
 	ok = true
 	d.metaUpdateLock.Unlock()
 	if mpLock != nil {
+		verifhook.At("pathbadger.NewBatch.beforeMultipartLock")
 		mpLock.Lock()
+		verifhook.At("pathbadger.NewBatch.afterMultipartLock")
 	}
 
 	return &badgerBatch{
